@@ -692,6 +692,14 @@ func Gen(run *vlib.Run, seed uint64, tier string) {
 		emit(run, c, "stream:directed")
 	}
 
+	for _, c := range staleDirected() {
+		emit(run, c, "stream:directed", "stream:stale-directed")
+	}
+
+	// (5a) nested lookups that agree in a part of their meta data, histories
+	// of Apply calls in both orders
+	genStale(run, root.Fork("stale"), tier)
+
 	// (5b) nested contextual calls inside one root rule, with inlined twins
 	genDeep(run, root.Fork("deep"), tier)
 
@@ -700,6 +708,10 @@ func Gen(run *vlib.Run, seed uint64, tier string) {
 
 	// (7) histories of Layout calls on one sfnt.Layouter (oracle only)
 	genLayout(run, root.Fork("layouter"), tier)
+
+	// (8) the families of (5a) through the public Layouter, feature lists,
+	// default features, fonts without cmap (oracle only)
+	genLayoutStale(run, root.Fork("layouter-stale"), tier)
 }
 
 // directed returns hand-written cases around the repaired defects.
@@ -920,8 +932,7 @@ func genRead(run *vlib.Run, r *vlib.Rand, tier string) {
 				}
 			}
 			// oracle only: run the tables exactly as the reader returned them
-			_, gd, lookups := c.Gtab()
-			v := oracle(info.LookupList, gd, lookups, c.Hist)
+			v := oracle(readTablesFunc(tp, d, c), c.Hist)
 			line := readLine(tp, d, c.Gdef, c.Lookups, c.Hist)
 			idx := run.Add(line, v.Impl, v.NonTri, label, "oracle-only")
 			if v.Fail != "" {
